@@ -43,6 +43,17 @@ pub fn collect_dirs(files: &[PathBuf]) -> Vec<PathBuf> {
     dirs.into_iter().collect()
 }
 
+/// Remote command that applies `xargs -0 <tool>` to a NUL-delimited list arriving on stdin —
+/// but only once ALL `len` bytes have arrived. GNU xargs treats end of input as the end of the
+/// last item, so a sender that dies mid-list (the list is written in several pipe-sized
+/// pieces) would make the remote side run the tool on a name cut in the middle: a prefix that
+/// can name a different, unrelated path.
+pub fn guarded_xargs(tool: &str, len: usize) -> String {
+    format!(
+        "t=$(mktemp) && cat > \"$t\" && [ \"$(wc -c < \"$t\")\" -eq {len} ] && xargs -0 {tool} < \"$t\"; r=$?; rm -f \"$t\"; exit $r"
+    )
+}
+
 /// Create directories on a remote host via SSH.
 /// Pipes directory list through stdin to avoid shell quoting issues with
 /// special characters (apostrophes, angle brackets, etc.) in directory names.
@@ -69,7 +80,7 @@ pub async fn create_remote_dirs(
     // Pipe directory list via stdin, read line-by-line and mkdir each
     let mut child = tokio::process::Command::new("ssh")
         .arg(host)
-        .arg("xargs -0 mkdir -p")
+        .arg(guarded_xargs("mkdir -p", dir_list.len()))
         .stdin(std::process::Stdio::piped())
         .stdout(std::process::Stdio::null())
         .stderr(std::process::Stdio::piped())
